@@ -122,7 +122,7 @@ def walk_direct(ctx, spec, rng):
                     prot.send_sd(e, remote=d)
                     counts[d] += 1
             for i in range(spec["crowd"]):
-                prot.send_sd(e, remote=(f"10.8.{i >> 8 & 255}.{i & 255}", 30490) if i % 3 else (f"2001:db8:8::{i + 1:x}", 30490, 0, 0))
+                prot.send_sd(e, remote=(f"10.{8 + (i >> 16)}.{i >> 8 & 255}.{i & 255}", 30490) if i % 3 else (f"2001:db8:8::{(i + 1) >> 16:x}:{(i + 1) & 0xFFFF:x}", 30490, 0, 0))
             ctx.count("crowd_destinations", spec["crowd"])
         while any(counts[d] < targets[d] for d in dsts):
             wrapped = max(counts.values()) > 0xFFFF + 5
